@@ -157,6 +157,16 @@ def verify_lemma(repo, lem):
     st.assume(L.forall(lo, k, lambda j: lem.concl(k=j, **args)))
     # the instance of the induction hypothesis at the predecessor, spelled out (nested quantifiers give no trigger)
     st.assume(L.implies(L.le(lo, k - 1), lem.concl(k=k - 1, **args)))
+    for (lname, binder) in getattr(lem, "uses", []):
+        # another (separately proved) lemma applied inside the step: its hypotheses are obligations here
+        other = LEMMAS[lname]
+        oargs = binder(k=k, **args)
+        for name, term in other.hyp(**oargs):
+            ex.oblige(st, "lemma", lem.name, "uses.%s.%s" % (lname, name), term)
+        if other.conclusion is not None:
+            st.assume(other.conclusion(**oargs))
+        else:
+            st.assume(L.forall(other.lo(**oargs), other.hi(**oargs), lambda j: other.concl(k=j, **oargs)))
     if lem.hints:
         for name, term in lem.hints(k=k, **args):
             ex.oblige(st, "lemma", lem.name, "hint." + name, term)
